@@ -513,4 +513,34 @@ def rule_write_time_validation(ctx, R):
                               vl, type(stored).__name__, tag),
                           "validated %r; expected %s" % (
                               vals, [want_text] if vl >= 2 else "nothing"))
+    # every write validates what is stored *then*: write, assign through the
+    # accessor (which calls _set_existing_field), write again
+    f_sef = ctx.anchor("Line._set_existing_field",
+                       line.find_method("_set_existing_field"))
+    for vl, tag in itertools.product([2, 3], [False, True]):
+        ctx.instance(R)
+        ln = Abs(line, label="line", vlevel=vl, _data={"xx": "12"},
+                 _datatype={"xx": "i"}, _gfa=None)
+        seen = []
+        for step, value in (("write", None), ("assign", "13"),
+                            ("write", None), ("assign", "14"),
+                            ("write", None)):
+            if step == "write":
+                out = eval_function(repo, f_fts, [ln, "xx"], {"tag": tag},
+                                    hooks=WH(repo))
+                seen.append([e[1] for e in out[2] if e[0] == "validate"])
+            else:
+                out = eval_function(repo, f_sef, [ln, "xx", value],
+                                    hooks=WH(repo))
+            if out[0] != "return":
+                break
+        ok = out[0] == "return" and seen == [["12"], ["13"], ["14"]]
+        ctx.oblige(ok)
+        if not ok:
+            ctx.violation(R, f_fts.short,
+                          "vlevel=%d,tag=%s,history=write/assign/write/"
+                          "assign/write" % (vl, tag),
+                          "the three writes validated %r, expected the value "
+                          "stored at the time of each write (outcome %r)" % (
+                              seen, out[0:2]))
     ctx.exhaustive[R] = True
